@@ -687,6 +687,22 @@ def ob_cache(ob, tier, seed):
     return res
 
 
+def ob_bulk(ob, tier, seed):
+    from . import bulkw
+    funcs, mir_s, mir_lines = dump_mir("akd")
+    res = bulkw.run_obligation(ob, tier, seed, funcs, "/repo")
+    res.setdefault("extra", {})["akd_mir_dump_s"] = mir_s
+    if res["verdict"] == "fail":
+        rp = run_native_bin("native_bulk")
+        if rp["status"] == "reproduced":
+            os.makedirs(REPLAYS, exist_ok=True)
+            path = os.path.join(REPLAYS, "C15_%s.json" % ob["id"].replace(".", "_"))
+            json.dump({"property": "C15", "obligation": ob["id"], "kind": "bulk", "failed": res.get("failures"), "native": rp.get("lines")}, open(path, "w"), indent=1)
+            rp["path"] = path
+        res["replay"] = rp
+    return res
+
+
 def ob_glue(ob, tier, seed):
     from . import histglue
     funcs, mir_s, mir_lines = dump_mir("akd_core")
@@ -703,7 +719,7 @@ def ob_glue(ob, tier, seed):
     return res
 
 
-RUNNERS = {"cache": ob_cache, "commit": ob_commit, "publish": ob_publish, "glue": ob_glue, "txn": ob_txn, "epochreads": ob_epochreads, "writer": ob_writer, "validate": ob_validate, "m1": ob_m1, "m2": ob_m2, "m4": ob_m4, "m5": ob_m5, "m6": ob_m6, "spec64": ob_spec64}
+RUNNERS = {"bulk": ob_bulk, "cache": ob_cache, "commit": ob_commit, "publish": ob_publish, "glue": ob_glue, "txn": ob_txn, "epochreads": ob_epochreads, "writer": ob_writer, "validate": ob_validate, "m1": ob_m1, "m2": ob_m2, "m4": ob_m4, "m5": ob_m5, "m6": ob_m6, "spec64": ob_spec64}
 
 
 def run_obligation(ob, tier, seed):
@@ -830,6 +846,8 @@ def replay_file(path):
         st = run_native_bin("native_commitfail")
     elif rec.get("kind") == "cache":
         st = run_native_bin("native_cache")
+    elif rec.get("kind") == "bulk":
+        st = run_native_bin("native_bulk")
     else:
         st = replay_record(rec)
     print("replay %s %s: %s (%s)" % (rec["property"], rec["obligation"], st["status"], st.get("detail", "")))
